@@ -61,6 +61,7 @@ def plan(tier, seed):
     units += [("cat3", tier), ("cat4", tier), ("catlong", tier), ("jsquoted", tier), ("rev", tier)]
     units += [("repl", tier, d, i) for d in range(4) for i in range(len(CH) + 1)]
     units += [("words", tier, i) for i in range(len(WORDS))]
+    units += core.interp_axis([("cat4", tier), ("jsquoted", tier), ("words", tier, 0), ("catlong", tier)])
     return units
 
 
